@@ -107,6 +107,12 @@ pub fn run(thorough: bool, seed: u64, driver: &str, rep: &mut Report) {
                             rep.count("extreme_draw_calls");
                             phylotree::verif::set_extreme_draws(300);
                         }
+                        // every fifth call is preceded, on the same thread, by a request OUTSIDE the domain (0 or 1 leaves, any
+                        // outcome): whatever such a call does, it must leave nothing behind for the next request
+                        if (ni + di + ri) % 5 == 0 {
+                            let _ = gen(shape, (ni + ri) % 2, brlens, *d, s ^ 1);
+                            rep.count("calls_preceded_by_a_degenerate_request");
+                        }
                         let g = gen(shape, n, brlens, *d, s);
                         phylotree::verif::set_extreme_draws(0);
                         let t = match g {
